@@ -87,3 +87,8 @@ reg("C06", "exploration", "bounded-exhaustive enumeration of driver placements a
     "Fragments, and every dependency digraph over 3..6 signal bits realised with bit-precise constructs (bitwise ops, Cat/Slice, Mux data, conditional data) and word-level operators, conditions, LHS part selects and Array "
     "targets, registers and hierarchy, is built and converted; the raised exception class (DriverConflict / DSL SyntaxError / exactly CombinationalCycle / none) is compared with ground truth.",
     "Trusted: vf/ref/c06_model.py (dependency rules from the statement: bit-precise vs word-level). Signed operands, Elif chains and don't-care patterns are not in the dependency alphabet.")
+reg("C11", "model_checking", "explicit-state BFS of the real simulated lib.memory.Memory (rows + sync read registers) in product with a row-array model and the RTLIL interpreter executing the emitted RTLIL, over a bounded grid of port configurations",
+    "For every configuration of the grid (7 row shapes incl. signed/aggregate, depth 0..4(5), 0-2 write ports at every granularity, 0-2 read ports comb/sync with every transparency subset, 1-2 domains pos/neg, reset none/sync/async) "
+    "the full reachable graph is explored from reset with every action (every clock/reset subset, every (addr, data, enable), testbench row writes) in every state; after every transition the rows, every read output and the RTLIL "
+    "memory/outputs are compared with the model.",
+    "Trusted: the ~60-line model in vf/props/c11.py (from docs/stdlib/memory.rst) and vf/rtlil/interp.py. Undefined points (pre-first-capture data, out-of-depth reads, same-bit double writes) are adopted/excluded and counted.")
